@@ -4,7 +4,7 @@
 // (string-buffer outputs) to observe that usage/help is printed and no test runs.
 // Scenario: <time ms> <n> <arg bytes>*n  [annotation, ignored here]
 // Observation:  :rej <help> <tests run> <printed 0 nothing|1 usage|2 help|3 other>
-//             | :ok v vv c p lg ln ll ri b f rethrow shuffling <seed> <repeat> <out 0|1|2> <pkg> <ng> (pat strict invert)* <nn> (..)* <sel>*12
+//             | :ok v vv c p lg ln ll ri b f rethrow shuffling <seed> <repeat> <out 0|1|2> <pkg> <ng> (pat strict invert)* <nn> (..)* <sel>*14
 #include <stdexcept>
 #include "hlib.h"
 static char* exactCopy(const std::string& s) { char* p = (char*)malloc(s.size() + 1); memcpy(p, s.data(), s.size()); p[s.size()] = 0; return p; }
@@ -51,8 +51,9 @@ public:
     TestOutput* createTeamCityOutput() CPPUTEST_OVERRIDE { return new StringBufferTestOutput; }
 };
 
-static const char* PROBES[12][2] = { {"grp", "name"}, {"grp", "name2"}, {"grp2", "name"}, {"Group", "Test"}, {"a", "b"}, {"ab", "ba"},
-    {"x", "y"}, {"grp", "other"}, {"other", "name"}, {"g1", "t1"}, {"G", "T"}, {"mygrp", "myname"} };
+static const char* PROBES[14][2] = { {"grp", "name"}, {"grp", "name2"}, {"grp2", "name"}, {"Group", "Test"}, {"a", "b"}, {"ab", "ba"},
+    {"x", "y"}, {"grp", "other"}, {"other", "name"}, {"g1", "t1"}, {"G", "T"}, {"mygrp", "myname"},
+    {"aaab", "xababac"}, {"Looop", "TestTestTests"} };   // self-overlapping patterns: a match that starts inside a failed partial match
 
 static void filters(Out& o, const TestFilter* f)
 {
@@ -87,7 +88,7 @@ int main()
                   << hstr(args.getPackageName().asCharString());
                 filters(o, args.getGroupFilters());
                 filters(o, args.getNameFilters());
-                for (int p = 0; p < 12; p++) {
+                for (int p = 0; p < 14; p++) {
                     UtestShell probe(PROBES[p][0], PROBES[p][1], "probe.cpp", 1);
                     o << b01(probe.shouldRun(args.getGroupFilters(), args.getNameFilters()));
                 }
